@@ -1,7 +1,8 @@
 #!/bin/sh
-# tools/benign_matrix.sh : apply each behaviour-preserving refactoring in seeded/benign/<ID>r/ to /repo, run the quick checks
-# of the properties anchored in the refactored code (all must exit 0), undo it; table in seeded/benign/MATRIX.md.
-# Never run this while another check is running: /repo's working tree is modified for the duration of each check.
+# tools/benign_matrix.sh : for each behaviour-preserving refactoring in seeded/benign/<ID>r/, make a scratch worktree of
+# /repo HEAD (under /tmp/wt, removed afterwards), apply the patch there and run the quick checks of the properties anchored
+# in the refactored code against that worktree (PYTHONPATH; /repo is not touched, no evidence is written). All must exit 0.
+# Table in seeded/benign/MATRIX.md.
 cd "$(dirname "$0")/.."
 OUT=seeded/benign/MATRIX.md
 TMP=$(mktemp)
@@ -11,20 +12,22 @@ for d in $(ls seeded/benign | grep -E '^C[0-9]+r$' | sort); do
     C27) ids="C26 C27";;
     C04) ids="C04 C05 C06 C07";;
     C29) ids="C29 C30";;
+    C22) ids="C21 C22";;
     *) ids="$id";;
   esac
-  p=seeded/benign/$d/patch.diff
-  if ! git -C /repo apply --check "$PWD/$p" 2>/dev/null; then
-    echo "| $d | - | patch does not apply to the current tree |" >> $TMP; continue
+  W=/tmp/wt/bm_$d
+  tools/mk_worktree.sh bm_$d > /dev/null
+  if ! git -C $W apply "$PWD/seeded/benign/$d/patch.diff" 2>/dev/null; then
+    echo "| $d | - | patch does not apply to the current tree |" >> $TMP
+    tools/rm_worktree.sh bm_$d > /dev/null; continue
   fi
-  git -C /repo apply "$PWD/$p"
   for c in $ids; do
-    ./check $c --tier quick > /tmp/benign_${d}_$c.log 2>&1; rc=$?
+    PYTHONPATH=$W VERIF_NO_EVIDENCE=1 ./check $c --tier quick > /tmp/benign_${d}_$c.log 2>&1; rc=$?
     case $rc in 0) res="passes (exit 0)";; 1) res="FALSE ALARM (exit 1)";; 3) res="inconclusive (exit 3)";; *) res="exit $rc";; esac
     echo "| $d | $c | $res |" >> $TMP
     echo "$d $c $res"
   done
-  git -C /repo checkout -- .
+  tools/rm_worktree.sh bm_$d > /dev/null
 done
 {
   echo "# Behaviour-preserving refactorings against the current checks (quick tier)"
